@@ -16,7 +16,7 @@ use serde_json::{Value, json};
 use std::any::Any;
 use std::collections::BTreeMap;
 use std::num::NonZeroUsize;
-use std::sync::Arc;
+use std::sync::{Arc, Mutex};
 use std::time::Duration;
 
 const SEL: &str = client::Q_PREPARED_SELECT;
@@ -325,6 +325,9 @@ pub fn run(req: &RunRequest) -> Value {
 }
 
 /// One observation by a caller.
+/// Markers (caller, step) at which a caller replaced its SELECT handle by preparing again.
+static REPREPARED_AT: Mutex<Vec<u64>> = Mutex::new(Vec::new());
+
 struct Obs {
     marker: u64,
     t_invoke: u64,
@@ -336,6 +339,7 @@ struct Obs {
 
 async fn main(plan: Plan) -> Outcome {
     let mut out = Outcome::default();
+    REPREPARED_AT.lock().unwrap().clear();
     {
         let mut w = world::world();
         w.script = Some(Box::new(C14Script::default()));
@@ -550,6 +554,7 @@ async fn main(plan: Plan) -> Outcome {
                         p.set_is_idempotent(true);
                         p.set_use_cached_result_metadata(use_cached);
                         sel = Arc::new(p);
+                        REPREPARED_AT.lock().unwrap().push(m);
                         world::world().probe("select_prepared_again_by_caller");
                     }
                     continue;
@@ -809,6 +814,64 @@ async fn main(plan: Plan) -> Outcome {
             let is_sel = preps.iter().any(|p| p.text == SEL && p.id == e.id);
             if is_sel && !md.is_empty() && !announced.iter().any(|(_, _, id)| id == md) {
                 out.violation("c14.unknown_metadata_id", format!("EXECUTE presented a result metadata id the server never announced: marker {:?}", e.marker));
+            }
+        }
+    }
+    // (d2) "...a new metadata id, which is also what the next execution presents": when an
+    // execution of the SELECT by caller c was answered, on a connection with the extension,
+    // with rows, their metadata and a new metadata id X, the next execution of the SELECT by
+    // c that starts on such a connection presents X - or an id announced after X -, never
+    // an older or an empty one. Not
+    // judged across a re-preparation of c's handle (by c, or by the driver after UNPREPARED).
+    // Judged in single-caller runs only: with concurrent callers sharing a handle, which of
+    // two announcements the client processed last is decided by arrival order.
+    if plan.md_ext && caching.is_none() && plan.callers == 1 {
+        let id_of = |version: u32| announced.iter().find(|a| a.1 == version).map(|a| a.2.clone());
+        let reprepared = REPREPARED_AT.lock().unwrap().clone();
+        let mut by_caller: BTreeMap<u64, Vec<&Obs>> = BTreeMap::new();
+        for o in obs.iter().filter(|o| o.kind == 0 || o.kind == 3) {
+            by_caller.entry((o.marker / 16 - 1) / 100).or_default().push(o);
+        }
+        for (c, list) in by_caller {
+            // (announced at, id) the caller's handle must know of.
+            let mut expect: Option<(u64, Vec<u8>)> = None;
+            let mut prev_marker = 0u64;
+            for o in list {
+                if reprepared.iter().any(|m| (m / 16 - 1) / 100 == c && *m > prev_marker && *m < o.marker) {
+                    expect = None;
+                }
+                prev_marker = o.marker;
+                let frames: Vec<&ExecRec> = execs.iter().filter(|e| e.marker == Some(o.marker) && !e.is_batch).collect();
+                if let (Some((t_x, x)), Some(first)) = (&expect, frames.first()) {
+                    if world::world().conns[first.conn].cql.metadata_id_ext {
+                        let presented = first.presented_md_id.clone().unwrap_or_default();
+                        let fine = &presented == x || announced.iter().any(|a| a.0 >= *t_x && a.2 == presented);
+                        if !fine {
+                            out.violation(
+                                "c14.announced_id_not_presented",
+                                format!(
+                                    "caller {c}: an earlier execution of the SELECT was answered with a new result metadata id ({:02x?}..), but the execution marker {} presents {:02x?}..",
+                                    &x[..x.len().min(2)],
+                                    o.marker,
+                                    &presented[..presented.len().min(2)]
+                                ),
+                            );
+                        }
+                    }
+                }
+                for e in &frames {
+                    match e.answer {
+                        Answer::Unprepared => expect = None,
+                        Answer::Rows { version, with_metadata: true } if world::world().conns[e.conn].cql.metadata_id_ext => {
+                            if let Some(id) = id_of(version) {
+                                if e.presented_md_id.as_ref() != Some(&id) {
+                                    expect = Some((e.t, id));
+                                }
+                            }
+                        }
+                        _ => {}
+                    }
+                }
             }
         }
     }
